@@ -50,3 +50,22 @@ Fixpoint pool_run (fused_amt committed uncommitted : Z) (cs : list cand) : Z * l
     | _ => pool_run fused_amt committed uncommitted r
     end
   end.
+
+(* ---- base cost of a user block: vm.GetBasePlasmaForAccountBlock. The cost of every embedded method is dumped
+   from the real method tables on every run (Consts.MethodPlasmaKeys / MethodPlasmaVals; key = contract address ‖
+   selector as one big-endian number). [found]: did embedded.GetEmbeddedMethod find the method under the spork
+   regime of the acknowledged momentum (observed input). *)
+Fixpoint assoc_z (k : Z) (ks vs : list Z) : option Z :=
+  match ks, vs with
+  | k' :: ks', v :: vs' => if k =? k' then Some v else assoc_z k ks' vs'
+  | _, _ => None
+  end.
+Definition method_plasma (key : Z) : option Z := assoc_z key MethodPlasmaKeys MethodPlasmaVals.
+
+Inductive bres := BOk (base : Z) | BErr.   (* BErr: the error that enoughPlasma turns into a panic (block refused) *)
+Definition base_plasma (is_receive to_contract found : bool) (key datalen : Z) : bres :=
+  if is_receive then BOk AccountBlockBasePlasma
+  else if to_contract then
+    (if found then match method_plasma key with Some p => BOk p | None => BErr end else BErr)
+  else if MaxDataLength <? datalen then BErr
+  else BOk (u64 (datalen * ABByteDataPlasma + AccountBlockBasePlasma)).
